@@ -87,7 +87,7 @@ Definition pipe_nonblocking (p : Z) (enable : bool) : MW Z :=
 
 Definition pipe_read (p : Z) (size : Z) : MW (Z * list run) :=
   let* '(r, rs) := sys_read p size in
-  if r =? 0 then ret (- EPIPE, [])
+  if (r =? 0) && (0 <? size) then ret (- EPIPE, [])
   else if r <? 0 then let* e := get_errno in ret (- e, [])
   else ret (r, rs).
 
@@ -275,22 +275,36 @@ Definition close_one (skip : list Z) (i : Z) : MW unit :=
 
 (* child side of process_fork up to its `return 0` (process.posix.c:215-300) *)
 Definition fork_child_part (prd pwr : Z) (except : list Z) (k : MW unit) : MW unit :=
-  let fail_ : MW unit :=
-    let* e := get_errno in sys_write pwr [RLit (encode_int e)] ;> sys__exit 1 in
+  let fail_ (r : Z) : MW unit := sys_write pwr [RLit (encode_int (- r))] ;> sys__exit 1 in
+  let errno_r : MW Z := let* e := get_errno in ret (- e) in
   let* r := sys_sigemptyset in
-  if r <? 0 then fail_ else
+  if r <? 0 then (let* r := errno_r in fail_ r) else
   let* r := reset_signals (seqZ SIGNAL_LOOP_FROM (SIGNAL_LOOP_TO - SIGNAL_LOOP_FROM)) in
-  if r <? 0 then fail_ else
+  if r <? 0 then fail_ r else
   let* r := sys_sigemptyset in
-  if r <? 0 then fail_ else
+  if r <? 0 then (let* r := errno_r in fail_ r) else
   let* '(r, _) := signal_mask SIG_SETMASK (Some []) in
-  if r <? 0 then fail_ else
+  if r <? 0 then fail_ r else
   let* r := get_max_fd in
-  if r <? 0 then fail_ else
+  if r <? 0 then fail_ r else
   let max_fd := r in
-  if MAX_FD_LIMIT <? max_fd then fail_ else
-  mapM_ (close_one (prd :: pwr :: except)) (seqZ 0 max_fd) ;>
+  if MAX_FD_LIMIT <? max_fd then fail_ (- EMFILE) else
+  mapM_ (close_one (prd :: pwr :: except)) (seqZ 0 (max_fd + 1)) ;>
   pipe_destroy pwr ;> pipe_destroy prd ;> k.
+
+(* read of the error pipe, retried while interrupted (process.posix.c) *)
+Fixpoint read_retry (fuel : nat) (fd : Z) : MW (Z * list run) :=
+  match fuel with
+  | O => fun w => Crash crash_fuel w
+  | S f =>
+      let* '(q, rs) := sys_read fd 4 in
+      if q <? 0 then
+        let* e := get_errno in
+        if e =? EINTR then read_retry f fd else ret (q, rs)
+      else ret (q, rs)
+  end.
+Definition read_errpipe (fd : Z) : MW (Z * list run) :=
+  let* nf := gets (fun w => length (w_faults w)) in read_retry (S (S nf)) fd.
 
 Definition process_fork (except : list Z) (child_k : MW unit) : MW Z :=
   let* r := sys_sigfillset in
@@ -299,19 +313,19 @@ Definition process_fork (except : list Z) (child_k : MW unit) : MW Z :=
   if r <? 0 then ret r else
   let* '(r, pp) := pipe_init in
   match pp with
-  | None => ret r
+  | None => let* _ := signal_mask SIG_SETMASK (Some old) in ret r
   | Some (prd, pwr) =>
       let* r := sys_fork (fork_child_part prd pwr except child_k) in
       if r <? 0 then
         let* e := get_errno in
         let r := - e in
-        let* _ := signal_mask SIG_SETMASK (Some fill_set) in
+        let* _ := signal_mask SIG_SETMASK (Some old) in
         pipe_destroy prd ;> pipe_destroy pwr ;> ret r
       else
         let child := r in
         let* _ := signal_mask SIG_SETMASK (Some old) in
         pipe_destroy pwr ;>
-        let* '(q, rs) := sys_read prd 4 in
+        let* '(q, rs) := read_errpipe prd in
         let child_errno := if q <? 0 then 0 else decode_int (runs_bytes rs) in
         let* r := (if 0 <? child_errno then
                      let* '(r, _) := sys_waitpid child in
@@ -344,18 +358,17 @@ Fixpoint child_redirect (l : list (Z * Z)) : MW Z :=    (* (redirect[i], i) *)
 (* child side of process_start after process_fork returned 0 (process.posix.c:356-425) *)
 Definition start_child_part (prd pwr : Z) (argv : option (list str)) (program : option (Z * str))
            (env : option (Z * list (Z * str))) (o : process_options) (k : MW unit) : MW unit :=
-  let fail_ : MW unit :=
-    let* e := get_errno in sys_write pwr [RLit (encode_int e)] ;> sys__exit 1 in
+  let fail_ (r : Z) : MW unit := sys_write pwr [RLit (encode_int (- r))] ;> sys__exit 1 in
   let* r := child_redirect (imap (fun i e => (start_fd_val o prd pwr e, Z.of_nat i)) start_redirect) in
-  if r <? 0 then fail_ else
+  if r <? 0 then fail_ r else
   let* r := handle_cloexec (po_exit o) false in
-  if r <? 0 then fail_ else
+  if r <? 0 then fail_ r else
   let* r := match po_wd o with
             | Some d => let* q := sys_chdir d in
                         if q <? 0 then let* e := get_errno in ret (- e) else ret q
             | None => ret r
             end in
-  if r <? 0 then fail_ else
+  if r <? 0 then fail_ r else
   set_environ (match env with Some (_, ss) => map snd ss | None => [] end) ;>
   let* r := match argv with
             | Some av =>
@@ -363,7 +376,7 @@ Definition start_child_part (prd pwr : Z) (argv : option (list str)) (program : 
                 if q <? 0 then let* e := get_errno in ret (- e) else ret q
             | None => ret r
             end in
-  if r <? 0 then fail_ else
+  if r <? 0 then fail_ r else
   (* env = NULL *)
   pipe_destroy prd ;> pipe_destroy pwr ;>
   sys_free (match program with Some (b, _) => b | None => 0 end) ;>
@@ -397,14 +410,14 @@ Definition process_start (process : Z) (argv : option (list str)) (o : process_o
       let parent := if po_env_behavior o =? REPROC_ENV_EMPTY then None else Some penv in
       let* env := strv_concat parent (po_env_extra o) in
       match env with
-      | None => finish r process prd pwr pg None            (* r is still 0: returns 1 *)
+      | None => let* e := get_errno in finish (- e) process prd pwr pg None
       | Some _ =>
           let except := map (start_fd_val o prd pwr) start_except in
           let* r := process_fork except (start_child_part prd pwr argv pg env o child_k) in
           if r <? 0 then finish r process prd pwr pg env else
           let child := r in
           let* pwr := pipe_destroy pwr in
-          let* '(q, rs) := sys_read prd 4 in
+          let* '(q, rs) := read_errpipe prd in
           let child_errno := if q <? 0 then 0 else decode_int (runs_bytes rs) in
           if 0 <? child_errno then
             let* '(r, _) := sys_waitpid child in
@@ -465,7 +478,7 @@ Definition start_finish (p : rp) (r : Z) (o : options) (cin cout cerr cexit : Z)
   redirect_destroy cin (rd_type (o_in o)) ;>
   let* cout := redirect_destroy cout (rd_type (o_out o)) in
   let* cerr := redirect_destroy cerr (rd_type (o_err o)) in
-  pipe_destroy cexit ;>
+  (if r =? 0 then ret tt else pipe_destroy cexit ;> ret tt) ;>
   if r <? 0 then
     let* i := pipe_destroy (h_in p) in
     let* ou := pipe_destroy (h_out p) in
@@ -530,6 +543,7 @@ Fixpoint fed_loop (srcs : list (option rp * Z)) (i : Z) (earliest : Z) (mn : Z) 
   | (Some p, _) :: r =>
       let* current := expiry REPROC_INFINITE (h_deadline p) in
       if current =? REPROC_DEADLINE then ret i
+      else if current =? REPROC_INFINITE then fed_loop r (i + 1) earliest mn
       else if (mn =? REPROC_INFINITE) || (current <? mn) then fed_loop r (i + 1) i current
       else fed_loop r (i + 1) earliest mn
   end.
@@ -664,7 +678,7 @@ Fixpoint stop_loop (actions : list stop_action) (p : rp) (r : Z) : MW (Z * rp) :
   | [] => ret (r, p)
   | a :: rest =>
       match stop_action_kind (sa_action a) with
-      | SK_noop => stop_loop rest p 0
+      | SK_noop => stop_loop rest p r
       | k =>
           let* r := match k with
                     | SK_wait => ret 0
